@@ -13,7 +13,7 @@ LEAN_MODS = ["SwcVerif.Props.C11"]
 THEOREMS = [
     "C11.rigid_preserves_distances", "C11.scale_distances", "C11.lengths_scale", "C11.ratio_scale", "C11.sholl_scale", "C11.counts_geometry_free",
     "C11.features_factor", "C11.length_relabel", "C11.volume_scale", "C11.concentric_scale'", "C11.concentric_scale_eps0", "C11.concentric_scale_counterexample",
-    "C11.exitT_scale",
+    "C11.exitT_scale", "C11.edgeDot_from_distances", "C11.angle_invariant_of_isometry", "C11.rigid_preserves_angles", "C11.angle_data_scale",
 ]
 TRUSTED = ["the feature models of C10 (functions of parent relation + distances only), C12's generated matrices (isometry), C13's generated volume forms (homogeneous of degree 3)"]
 ASSUMPTIONS = ["floating-point rounding is outside the theorems (the property itself says 'beyond floating-point rounding'): metamorphic comparisons use relative tolerance 2e-4",
@@ -210,5 +210,6 @@ TECHNIQUE = ("Lean 4 theorems: rigid motions built from the REGENERATED matrices
 LEVEL_TEXT = ("Kernel-checked: translation and rotation (axis rotations about origin or root) leave every squared inter-node distance unchanged, uniform scaling multiplies "
               "it by s²; the feature models are functions of the parent list and the distances only; under scaling by s lengths and path distances scale by s, ratios do not "
               "change, the Sholl count with radii scaled by s does not change, sphere / cap / frustum / lens / sphere∩frustum volumes scale by s³; total length is invariant "
-              "under renumberings that carry the edge lengths along.")
+              "under renumberings that carry the edge lengths along; the inner product of the two edge vectors at a node is determined by three squared distances "
+              "(polarisation), so every bifurcation-angle cosine is unchanged by the regenerated rigid motions and by uniform scaling.")
 LEVEL_NOTE = "Trusted: Lean kernel; C10's tie of the feature models to the code; floating-point rounding (tolerance 3e-4) is outside the theorems."
